@@ -36,6 +36,7 @@ type Engine struct {
 	// function that is not in it and has no contract is a helper somebody extracted - it is
 	// executed as part of its caller (site assertions, ghost counters and loop ordinals carry over)
 	baseFuncs map[string]bool
+	loopExtra map[string]map[int]map[string]KeyInfo // function -> loop ordinal -> heaps the audit found written in the body
 	baseGo    map[string]int // go statements executed per function under contract, as of the baseline
 }
 
@@ -225,7 +226,41 @@ func (v *FnVerifier) setupGuards() {
 }
 
 // VerifyFunc generates all obligations for one function under contract.
+// VerifyFunc runs the unit; when the loop-frame audit finds state that a loop body writes although it
+// was not havocked at the loop head (engine-made snapshots, appends: not visible to the syntactic
+// write set), the unit is generated again with those heaps added to the loop's havoc set.
 func (e *Engine) VerifyFunc(fn *ssa.Function, fc *FuncContract) (v *FnVerifier) {
+	for round := 0; ; round++ {
+		v = e.verifyFuncOnce(fn, fc)
+		if len(v.auditMissed) == 0 || round >= 3 {
+			return v
+		}
+		if e.loopExtra == nil {
+			e.loopExtra = map[string]map[int]map[string]KeyInfo{}
+		}
+		fk := fn.String()
+		if e.loopExtra[fk] == nil {
+			e.loopExtra[fk] = map[int]map[string]KeyInfo{}
+		}
+		grew := false
+		for ord, kis := range v.auditMissed {
+			if e.loopExtra[fk][ord] == nil {
+				e.loopExtra[fk][ord] = map[string]KeyInfo{}
+			}
+			for k, ki := range kis {
+				if _, ok := e.loopExtra[fk][ord][k]; !ok {
+					e.loopExtra[fk][ord][k] = ki
+					grew = true
+				}
+			}
+		}
+		if !grew {
+			return v
+		}
+	}
+}
+
+func (e *Engine) verifyFuncOnce(fn *ssa.Function, fc *FuncContract) (v *FnVerifier) {
 	v = e.newVerifier(fn, fc)
 	defer func() {
 		if r := recover(); r != nil {
